@@ -8,7 +8,7 @@ AST (tuples)
   compound  = {'type': None | ('type', prefix, name), 'simples': [simple...], 'pe': None | pseudo-element}
   prefix    = None | '*' | '' | declared prefix;   name = ident | '*'
   simple    = ('id', n) | ('class', n) | ('attr', prefix, n, op, value) | ('pc', n) | ('func', 1, n, atoms)
-            | ('not', arg)        arg = ('type', ..) | ('id', n) | ('class', n) | ('attr', ..) | ('pc', n) | pe
+            | ('not', arg)        arg = ('type', ..) | ('id', n) | ('class', n) | ('attr', ..) | ('pc', n) | ('func', ..) | pe
   pe        = ('pe2', n) | ('pe1', n) (the four legacy one-colon ones) | ('func', 2, n, atoms)
   value     = ('ident', v) | ('string', content)
   atoms     = list of strings making up an+b / ident / string arguments, e.g. ['2n', '+', '1']
@@ -19,7 +19,7 @@ IDS = ['x', 'main', 'a-b', '_1', 'Top', 'é1', 'a\\#b', 'FFF', 'c0ffee']
 CLASSES = ['c', 'warn', 'a-b', '_x', 'Big', 'ü', 'a\\.b', 'not', 'first-line']
 ATTRS = ['href', 'lang', 'data-x', 'Title', 'a', '_b', 'xml\\:lang']
 PCLASSES = ['hover', 'focus', 'first-child', 'link', 'visited', 'active', 'last-child', 'empty', 'root', 'checked',
-            'only-child', 'target', 'x-y', 'befor', 'after-x']
+            'only-child', 'target', 'x-y', 'befor', 'after-x', 'b\\.c', 'x\\:y', 'p\\(q', 'm\\ n', '\\-x', 'u\\\\v']
 LEGACY = ['first-line', 'first-letter', 'before', 'after']
 PELEMS = ['before', 'after', 'first-line', 'selection', 'x-thing', 'placeholder']
 FUNCS = ['nth-child', 'nth-of-type', 'nth-last-child', 'nth-last-of-type', 'lang', 'x-fn', 'before']
@@ -96,8 +96,10 @@ def gen_negarg(rng, ns):
         return ('class', rng.choice(CLASSES))
     if r < 0.8:
         return gen_attr(rng, ns)
-    if r < 0.92:
+    if r < 0.85:
         return ('pc', rng.choice(PCLASSES))
+    if r < 0.95:
+        return ('func', rng.choice([1, 1, 1, 2]), rng.choice(FUNCS), list(rng.choice(ANB)))
     return rng.choice([('pe2', rng.choice(PELEMS)), ('pe1', rng.choice(LEGACY))])
 
 
@@ -167,6 +169,25 @@ def unesc(name):
     return ''.join(out)
 
 
+def norm_name(name):
+    """what is stored for a pseudo name: lower case; a backslash goes only before a character that may stand
+    unescaped anywhere in an identifier (letters g-z, `_`, non-ASCII) -- written independently of selector.py"""
+    out, i = [], 0
+    while i < len(name):
+        ch = name[i]
+        if ch == '\\' and i + 1 < len(name):
+            nx = name[i + 1]
+            if ('g' <= nx.lower() <= 'z' and nx.isascii()) or nx == '_' or ord(nx) >= 128:
+                out.append(nx)
+            else:
+                out.append(ch + nx)
+            i += 2
+        else:
+            out.append(ch)
+            i += 1
+    return ''.join(out).lower()
+
+
 def resolve(prefix, ns, attribute=False):
     if attribute and not prefix:
         return 'PLAIN'
@@ -195,13 +216,13 @@ def expected_projection(sel, ns):
             u = resolve(s[1], ns, attribute=True)
             out.append(('attr', u, s[2], s[3], None if s[4] is None else s[4][1]))
         elif k == 'pc':
-            out.append(('pseudo', ':' + unesc(s[1]).lower()))
+            out.append(('pseudo', ':' + norm_name(s[1])))
         elif k == 'pe2':
-            out.append(('pseudo', '::' + unesc(s[1]).lower()))
+            out.append(('pseudo', '::' + norm_name(s[1])))
         elif k == 'pe1':
-            out.append(('pseudo', ':' + unesc(s[1]).lower()))
+            out.append(('pseudo', ':' + norm_name(s[1])))
         elif k == 'func':
-            out.append(('func', ':' * s[1] + unesc(s[2]).lower() + '(', ''.join(canon_atom(a) for a in s[3])))
+            out.append(('func', ':' * s[1] + norm_name(s[2]) + '(', ''.join(canon_atom(a) for a in s[3])))
         elif k == 'not':
             out.append(('not(',))
             simple(s[1], True)
